@@ -289,9 +289,9 @@ func delimsStream(r *Run) {
 	thorough := r.Tier == "thorough"
 	a1 := stringsOver(alphaA, 1)
 	// 1. every quadruple of one-byte delimiters over < > [ ] | !
-	reps := 2
+	reps := 6
 	if thorough {
-		reps = 6
+		reps = 12
 	}
 	for k := 0; k < reps; k++ {
 		enumGoodQuads(a1, func(d [4]string) { pair(d, "all-len1-A", tokGenOpts{}) })
@@ -302,7 +302,7 @@ func delimsStream(r *Run) {
 		enumGoodQuads(stringsOver(alphaA, 2), func(d [4]string) { pair(d, "all-len<=2-A", tokGenOpts{MaxNodes: 3}) })
 	} else {
 		a2 := stringsOver(alphaA, 2)
-		for i := 0; i < 400; i++ {
+		for i := 0; i < 4000; i++ {
 			for {
 				d := [4]string{a2[g.Intn(len(a2))], a2[g.Intn(len(a2))], a2[g.Intn(len(a2))], a2[g.Intn(len(a2))]}
 				if GoodDelims(d) {
@@ -313,9 +313,9 @@ func delimsStream(r *Run) {
 		}
 	}
 	// 3. random lengths, mostly 3..4, over both alphabets
-	n := 500
+	n := 4000
 	if thorough {
-		n = 30000
+		n = 40000
 	}
 	for i := 0; i < n; i++ {
 		alpha := alphaA
@@ -328,9 +328,9 @@ func delimsStream(r *Run) {
 		pair(randomGoodQuad(g, alpha, 3, 4), "random-len3-4", tokGenOpts{})
 	}
 	// 4. every subset of positions left empty
-	n = 40
+	n = 250
 	if thorough {
-		n = 1500
+		n = 2500
 	}
 	for i := 0; i < n; i++ {
 		var base [4]string
@@ -350,9 +350,9 @@ func delimsStream(r *Run) {
 		}
 	}
 	// 5. the default delimiter strings are ordinary text under fully custom delimiters
-	n = 250
+	n = 2000
 	if thorough {
-		n = 8000
+		n = 12000
 	}
 	for i := 0; i < n; i++ {
 		switch i % 3 {
